@@ -174,6 +174,7 @@ type FontSpec struct {
 // FontOpts restricts the generator.
 type FontOpts struct {
 	NoLayout    bool // no GSUB/GPOS/GDEF menus
+	Compact     bool // five layout combinations instead of the full GSUB x GPOS x GDEF product
 	NoMeta      bool // no metadata deviations
 	SubsetOnly  bool // only layout data the subsetter supports
 	Kinds       []int
@@ -349,7 +350,20 @@ func Font(c *explore.Ctx, o FontOpts) (*sfnt.Font, *FontSpec) {
 	spec.Runes = runes
 
 	if !o.NoLayout && n >= 3 {
-		gs := c.Choose(4, "gsub")
+		var gs, gp, gd int
+		if o.Compact && !o.SubsetOnly {
+			combos := [][3]int{{0, 0, 0}, {1, 0, 1}, {2, 1, 0}, {0, 3, 2}, {3, 2, 0}}
+			k := combos[c.Choose(len(combos), "layout combination")]
+			gs, gp, gd = k[0], k[1], k[2]
+		} else {
+			gs = c.Choose(4, "gsub")
+			if o.SubsetOnly {
+				gp = c.Choose(2, "gpos")
+			} else {
+				gp = c.Choose(4, "gpos")
+				gd = c.Choose(3, "gdef")
+			}
+		}
 		switch gs {
 		case 1:
 			spec.Gsub = "single 1.1"
@@ -361,50 +375,38 @@ func Font(c *explore.Ctx, o FontOpts) (*sfnt.Font, *FontSpec) {
 			spec.Gsub = "empty"
 			f.Gsub = &gtab.Info{}
 		}
-		if o.SubsetOnly {
-			if c.Bool("gpos") {
-				spec.Gpos = "pair 2.1"
-				f.Gpos = simpleInfo("kern", 2, gtab.Gpos2_1{
-					{Left: 1, Right: 2}: {First: &gtab.GposValueRecord{XAdvance: -40}},
-					{Left: 2, Right: 1}: {First: &gtab.GposValueRecord{XAdvance: 25}},
-				})
-			}
-		} else {
-			gp := c.Choose(4, "gpos")
-			switch gp {
-			case 1:
-				spec.Gpos = "pair 2.1"
-				f.Gpos = simpleInfo("kern", 2, gtab.Gpos2_1{
-					{Left: 1, Right: 2}: {First: &gtab.GposValueRecord{XAdvance: -40}},
-					{Left: 2, Right: 1}: {First: &gtab.GposValueRecord{XAdvance: 25}},
-				})
-			case 2:
-				spec.Gpos = "single 1.1"
-				f.Gpos = simpleInfo("cpsp", 1, &gtab.Gpos1_1{Cov: coverage.Table{1: 0, 2: 1}, Adjust: &gtab.GposValueRecord{XPlacement: 5, XAdvance: 10}})
-			case 3:
-				spec.Gpos = "pair 2.2"
-				f.Gpos = simpleInfo("kern", 2, &gtab.Gpos2_2{
-					Cov:    coverage.Set{1: true, 2: true},
-					Class1: classdef.Table{1: 1},
-					Class2: classdef.Table{2: 1},
-					Adjust: [][]*gtab.PairAdjust{
-						{{First: &gtab.GposValueRecord{}}, {First: &gtab.GposValueRecord{XAdvance: -11}}},
-						{{First: &gtab.GposValueRecord{XAdvance: 7}}, {First: &gtab.GposValueRecord{XAdvance: -30}}},
-					},
-				})
-			}
-			gd := c.Choose(3, "gdef")
-			switch gd {
-			case 1:
-				spec.Gdef = "classes"
-				f.Gdef = &gdef.Table{GlyphClass: classdef.Table{1: gdef.GlyphClassBase, 2: gdef.GlyphClassMark}}
-			case 2:
-				spec.Gdef = "classes+attach+marksets"
-				f.Gdef = &gdef.Table{
-					GlyphClass:      classdef.Table{1: gdef.GlyphClassBase, 2: gdef.GlyphClassMark},
-					MarkAttachClass: classdef.Table{2: 1},
-					MarkGlyphSets:   []coverage.Set{{2: true}},
-				}
+		switch gp {
+		case 1:
+			spec.Gpos = "pair 2.1"
+			f.Gpos = simpleInfo("kern", 2, gtab.Gpos2_1{
+				{Left: 1, Right: 2}: {First: &gtab.GposValueRecord{XAdvance: -40}},
+				{Left: 2, Right: 1}: {First: &gtab.GposValueRecord{XAdvance: 25}},
+			})
+		case 2:
+			spec.Gpos = "single 1.1"
+			f.Gpos = simpleInfo("cpsp", 1, &gtab.Gpos1_1{Cov: coverage.Table{1: 0, 2: 1}, Adjust: &gtab.GposValueRecord{XPlacement: 5, XAdvance: 10}})
+		case 3:
+			spec.Gpos = "pair 2.2"
+			f.Gpos = simpleInfo("kern", 2, &gtab.Gpos2_2{
+				Cov:    coverage.Set{1: true, 2: true},
+				Class1: classdef.Table{1: 1},
+				Class2: classdef.Table{2: 1},
+				Adjust: [][]*gtab.PairAdjust{
+					{{First: &gtab.GposValueRecord{}}, {First: &gtab.GposValueRecord{XAdvance: -11}}},
+					{{First: &gtab.GposValueRecord{XAdvance: 7}}, {First: &gtab.GposValueRecord{XAdvance: -30}}},
+				},
+			})
+		}
+		switch gd {
+		case 1:
+			spec.Gdef = "classes"
+			f.Gdef = &gdef.Table{GlyphClass: classdef.Table{1: gdef.GlyphClassBase, 2: gdef.GlyphClassMark}}
+		case 2:
+			spec.Gdef = "classes+attach+marksets"
+			f.Gdef = &gdef.Table{
+				GlyphClass:      classdef.Table{1: gdef.GlyphClassBase, 2: gdef.GlyphClassMark},
+				MarkAttachClass: classdef.Table{2: 1},
+				MarkGlyphSets:   []coverage.Set{{2: true}},
 			}
 		}
 	}
